@@ -91,6 +91,51 @@ theorem fromNum_event_fields (s : FState) (h : Blk) (e : Entry) :
     · simp [Blk.ref]
     · omega
 
+/-- **the lowest servable number**: `LowestBlockNum` is the number of the first block of the retained canonical chain;
+    a request from it is served, and — heights being ascending along the chain — no request below it is -/
+theorem lowest_is_servable_and_minimal (s : FState) (h : Blk) (f : Entry) (rest : List Entry)
+    (hs : headSegment s = some (h, f :: rest)) (hasc : ∀ e ∈ f :: rest, f.blk.num ≤ e.blk.num) :
+    lowestBlockNum s = some f.blk.num ∧ (blocksFromNum s f.blk.num).isSome = true ∧
+    ∀ n, n < f.blk.num → blocksFromNum s n = none := by
+  have hseg : s.lastSent = some h ∧ s.db.completeSegment h.ref = (some (f :: rest), true) := by
+    unfold headSegment at hs
+    split at hs
+    · cases hs
+    · cases hl : s.lastSent with
+      | none => rw [hl] at hs; cases hs
+      | some l =>
+        rw [hl] at hs
+        simp only at hs
+        cases hc : s.db.completeSegment l.ref with
+        | mk o r =>
+          rw [hc] at hs
+          cases o with
+          | none => cases hs
+          | some seg =>
+            cases r with
+            | false => cases hs
+            | true =>
+              simp only [Option.some.injEq, Prod.mk.injEq] at hs
+              obtain ⟨rfl, rfl⟩ := hs
+              exact ⟨rfl, hc⟩
+  refine ⟨?_, ?_, ?_⟩
+  · unfold lowestBlockNum
+    rw [hseg.1]
+    simp only [hseg.2]
+  · rw [served_iff_retained_canonical s _ h _ hs]; simp
+  · intro n hn
+    have hserved := served_iff_retained_canonical s n h _ hs
+    have hno : (f :: rest).any (fun e => e.blk.num == n) = false := by
+      rw [List.any_eq_false]
+      intro e he
+      have := hasc e he
+      simp only [beq_iff_eq]
+      omega
+    rw [hno] at hserved
+    cases hb : blocksFromNum s n with
+    | none => rfl
+    | some x => rw [hb] at hserved; cases hserved
+
 /-! ### the with-forks snapshot -/
 
 theorem mem_ins (b x : Blk) (l : List Blk) : x ∈ insByNum b l ↔ x = b ∨ x ∈ l := by
